@@ -14,7 +14,7 @@ pub fn gstr(s: &str) -> String {
     }
 }
 
-pub fn glist<T>(xs: impl IntoIterator<Item = T>, f: impl Fn(T) -> String) -> String {
+pub fn glist<T>(xs: impl IntoIterator<Item = T>, f: impl FnMut(T) -> String) -> String {
     let v: Vec<String> = xs.into_iter().map(f).collect();
     format!("[{}]", v.join("; "))
 }
